@@ -18,8 +18,16 @@ fn is_hex(s: &str) -> bool {
 
 impl Canon {
     pub fn key(&mut self, k: &str) -> String {
+        let up = k.to_ascii_uppercase();
+        // a 39-character name of this key may have been seen first
+        if up.len() == 40 && !self.keys.contains_key(&up) {
+            let short = format!("?{}", &up[1..]);
+            if let Some(t) = self.keys.remove(&short) {
+                self.keys.insert(up.clone(), t);
+            }
+        }
         let n = self.keys.len() + 1;
-        self.keys.entry(k.to_ascii_uppercase()).or_insert_with(|| format!("K{n}")).clone()
+        self.keys.entry(up).or_insert_with(|| format!("K{n}")).clone()
     }
     pub fn hash(&mut self, k: &str) -> String {
         let n = self.hashes.len() + 1;
@@ -46,6 +54,23 @@ impl Canon {
                 let boundary = j == b.len() || !b[j].is_ascii_alphanumeric();
                 if boundary && run.len() == 40 {
                     out.push_str(&self.key(run));
+                    i = j;
+                    continue;
+                }
+                if boundary && run.len() == 39 {
+                    // krill's object names for CA certificates drop the first character of the
+                    // key identifier: map them onto the key's token
+                    let up = run.to_ascii_uppercase();
+                    let hit = self.keys.iter().find(|(k, _)| k.ends_with(&up)).map(|(_, t)| t.clone());
+                    let tok = match hit {
+                        Some(t) => t,
+                        None => {
+                            // not seen in full yet: remember by suffix
+                            let n = self.keys.len() + 1;
+                            self.keys.entry(format!("?{up}")).or_insert_with(|| format!("K{n}")).clone()
+                        }
+                    };
+                    out.push_str(&format!("{tok}n"));
                     i = j;
                     continue;
                 }
